@@ -269,6 +269,15 @@ def lattice_case(args):
         _, ps = C.run_pt_dynamics(sysm, pt, rho0, 0.0)
         full = C.make_params(dt, eps)
         _, fs = C.run_tempo(sysm, bath, full, rho0, 0.0, n, False)
+        # TEMPO propagated in two compute() calls, the first one shorter than the memory length
+        t2 = oq.Tempo(sysm, bath, prm, rho0, 0.0)
+        t2.compute(1.25 * dt, progress_type="silent")
+        cs = np.array(t2.compute((n + 0.25) * dt, progress_type="silent").states)
+        cdev = float(np.abs(cs - ps).max()) if cs.shape == ps.shape else 9.9
+        if cdev > tolerance(eps, n):
+            bad.append((f"lattice|memory-as-{how}|tempo-in-two-calls-vs-pttempo-differ",
+                        f"dt={dts} memory {k} steps given as {how}, {n} steps: TEMPO computed as compute(1 step) + compute(rest) "
+                        f"and PT-TEMPO differ by {cdev:.2e}"))
     except Exception as ex:  # noqa
         return {"bad": [(f"lattice|memory-as-{how}|exception:{type(ex).__name__}", f"dt={dts} K={k}: {ex}"[:160])], "eff": 0.0}
     dev = float(np.abs(ts - ps).max()) if ts.shape == ps.shape else 9.9
